@@ -371,9 +371,9 @@ def _shards(triples):
     return out
 
 
-@harness('C15', tier_params={'quick': _shards(H3[:1]), 'thorough': _shards(H3 + [(a, b, c) for a in ('cust', 'mandatory', 'subclass') for b in ('cust', 'mandatory') for c in ('append', 'insert') if (a, b, c) not in H3])},
+@harness('C15', tier_params={'quick': _shards(H3[:1]), 'thorough': _shards(H3 + [(a, b, c) for a in ('mandatory', 'subclass') for b in ('cust', 'mandatory') for c in ('append',) if (a, b, c) not in H3])},
          label=lambda p: '%s t0=%d kw0=%d' % (','.join(p[0]), p[1], p[2]), functions=FUNCS, max_paths=200000,
-         bounds={'history': 'sequences of 3 operations: one representative kind-triple (customize, customize, append_field) in the quick tier, about 20 kind-triples (8 representative + {customize, Mandatory, subclassing} x {customize, Mandatory} x {append, insert}) in the thorough tier; targets and keyword sets enumerated, numbers symbolic'})
+         bounds={'history': 'sequences of 3 operations: one representative kind-triple (customize, customize, append_field) in the quick tier, 12 kind-triples (8 representative + {Mandatory, subclassing} x {customize, Mandatory} x append_field) in the thorough tier; targets and keyword sets enumerated, numbers symbolic'})
 def history3(sx, p):
     kinds, t0, kw0 = p
     return _run_history(sx, list(kinds), {'t0': t0, 'kw0': kw0})
